@@ -149,7 +149,9 @@ def place(template, Ts, kind, i, loc, sym):
 def frame(template, snap, kind, i, shp, order, sym):
     n = int(np.prod(shp))
     cols = []
+    from vk.symx.harness import budget_check
     for j in range(n):
+        budget_check()
         e = unit_vec(n, j, sym).reshape(shp)
         cols.append(dense_of(template, place(template, snap["tensors"], kind, i, e, sym), snap["coeff"], order))
     return np.array(cols, dtype=object if sym else complex).T
